@@ -158,6 +158,10 @@ func genDuration() *rapid.Generator[time.Duration] {
 		rapid.Just(time.Duration(0)),
 		rapid.Custom(func(t *rapid.T) time.Duration { return time.Duration(rapid.Int64Range(0, int64(time.Second)).Draw(t, "subsecond")) }),
 		rapid.Custom(func(t *rapid.T) time.Duration { return time.Duration(rapid.Int64Range(0, int64(hundredHours)).Draw(t, "dur")) }),
+		rapid.Custom(func(t *rapid.T) time.Duration {
+			return time.Duration(rapid.Int64Range(1, 359_999).Draw(t, "secs"))*time.Second +
+				time.Duration(rapid.SampledFrom([]int64{0, 0, 1, 250_000_000, 499_999_999, 500_000_000, 999_999_999}).Draw(t, "frac"))
+		}),
 		rapid.SampledFrom([]time.Duration{1, 499_999_999, 500 * time.Millisecond, 500_000_001, time.Second, 1500 * time.Millisecond,
 			time.Minute, time.Hour, hundredHours}),
 	)
